@@ -125,3 +125,12 @@ add("C15", "inode-like FileModel replayed alongside random operation histories; 
     "sharing of hard links vs copies, is_cooler on collection / foreign / dataset / missing-group / missing-file / "
     "non-HDF5 paths, `cooler ls`, and unrelated attributes/groups/datasets are compared with the model.",
     "DESIGN.md section 4 C15")
+add("C16", "parsed-CLI-output vs reference rows over option vectors; dump->load round-trip digests; column-layout permutation driver",
+    "`cooler dump` is run (in-process CliRunner and a sample through a real subprocess) on generated coolers over random "
+    "vectors of -r/-r2/--fill-lower/--join/--balanced/--annotate/--one-based-ids/--one-based-starts/--header/-k and "
+    "table dumps, parsed and compared with rows derived from the generated pixels, weights and bin table (an option that "
+    "has no effect is named in the mechanism key); dump -> load -f coo|bg2 round trips (zero/one-based, symmetric/-N, "
+    "loader chunk sizes from 1, both BINS spellings) must reproduce pixels and bin tables; the same records laid out "
+    "at arbitrary non-monotone column numbers with nuisance columns are loaded via --field / -c1 -p1 -c2 -p2 and "
+    "compared with the reference binning and per-pixel value sums.",
+    "DESIGN.md section 4 C16")
